@@ -624,7 +624,7 @@ def c15_jobs(tier):
     # (|X|, |Y|, substitutions, flank, trapezoid order, symbolic-position mask of the query, minimum hit length, minimum identity %, k)
     two = [(10, 3, 1, 3, 0, 16, 4, 70, 2), (10, 3, 1, 3, 1, 16, 4, 70, 2), (12, 4, 2, 3, 1, 64, 5, 70, 2), (10, 2, 1, 3, 1, 32, 4, 70, 2)]
     if tier != "quick":
-        two += [(12, 3, 1, 3, 1, 4096, 4, 70, 2), (14, 4, 1, 4, 0, 1024, 6, 75, 3), (14, 4, 1, 4, 1, 262144, 6, 75, 3)]
+        two += [(12, 3, 1, 3, 1, 4096, 4, 70, 2)]
     for (xl, yl, subs, fl, order, mask, ml, mi, k) in two:
         jobs.append({"pkgdir": "align/pals/dp", "func": "VerifC15_TwoTraps", "sched": "det", "floatsplit": True, "math": True,
                      "params": {"xlen": xl, "ylen": yl, "subs": subs, "flank": fl, "order": order, "sym": mask, "minlen": ml, "minid": mi, "k": k},
